@@ -172,6 +172,21 @@ impl Prop for C01 {
                 f(Case::s(format!("ab\n# Legend:{}", t)));
             })
         }));
+        v.push(Scope::new("legend-placements", "the literal legend marker (and near misses) at the start, in the middle and at the end of a line, after every kind of prefix, followed by well-formed / malformed / no entries", |f| {
+            let prefixes = ["", " ", "x ", "see the ", "#", "| ", "\"", "一 ", "\t", "# Legend: "];
+            let markers = ["# Legend:", "#Legend:", "# Legend", "## Legend:", "# Legend: x", "# legend:"];
+            let suffixes = ["", " below", " |", "\n", "\na = {fill:red}", "\na = {", "\n# Legend:\nb = {x}", "\r\na = {x}\r\n"];
+            let above = ["", "+-+\n", "text\n"];
+            for a in above {
+                for p in prefixes {
+                    for m in markers {
+                        for su in suffixes {
+                            f(Case::s(format!("{}{}{}{}", a, p, m, su)));
+                        }
+                    }
+                }
+            }
+        }));
         v.push(Scope::new("brace-strings", "every string over {{,},a,comma,*,space} up to length 5, alone and inside a box", |f| {
             enumr::strings_upto(&['{', '}', 'a', ',', '*', ' '], 5, &mut |s| {
                 let t: String = s.iter().collect();
